@@ -65,6 +65,21 @@ def main():
             p = os.path.join(out, step[1])
             os.makedirs(os.path.dirname(p), exist_ok=True)
             os.symlink(step[2], p)
+        elif op == "link_dep_files":
+            # `ln -s $COND_DEPS/* $COND_OUT/` (step[1] == "sym") or `cp -al` (hard links): a common way of "starting
+            # from" a dependency's results
+            for depdir in [d for d in os.environ.get("COND_DEPS", "").split(":") if d]:
+                for nm in sorted(os.listdir(depdir)):
+                    dst = os.path.join(out, nm)
+                    if os.path.lexists(dst) or os.path.isdir(os.path.join(depdir, nm)) or nm == "DONE":
+                        continue   # (DONE is written by this probe itself: writing through a link would be the task's doing)
+                    try:
+                        if step[1] == "sym":
+                            os.symlink(os.path.join(depdir, nm), dst)
+                        else:
+                            os.link(os.path.join(depdir, nm), dst)
+                    except OSError:
+                        pass
         elif op == "fifo":
             p = os.path.join(out, step[1])
             os.makedirs(os.path.dirname(p), exist_ok=True)
